@@ -300,4 +300,76 @@ PROPS = {
         'technique': 'Coq refinement of the cache layer to a cache-free specification over all histories + exhaustive-schedule invariant for concurrent opens + three-way differential of real Systems',
         'assumptions': ['sequential request histories for the transparency clause', 'a finite TTL requires a persistent cron service (NewSystem enforces it; the harness supplies a recording one)'],
     },
+    'C12': {
+        'props_file': 'props/C12.v',
+        'domains': [{'name': 'conc-one', 'quick': 400, 'thorough': 20000, 'thorough_shards': 10, 'race': 150, 'race_thorough': 3000}],
+        'spec_ops': ['linearizable', 'no-crash'],
+        'corr': 'corr.conc (CorrConc.check_conc): linearizability of observed concurrent histories w.r.t. the extracted sequential location model (depth-first search over real-time-respecting orders, final memory and storage included) + race-detector runs of the same harness',
+        'rule': 'conc-one: 2-3 client goroutines, 2-4 operations each (AddFact on 3 shared ids, RemFact, GetFact, SearchFacts, AddRule/RemRule on 3 shared rule ids, some rules with an expiration, FindRules dispatch) on one location (either state kind), '
+                'released together; every operation records invocation/response instants; after quiescence every id is read through the live location and through a location rebuilt from storage; each case in a child process; '
+                'race runs: the same cases under the Go race detector; non-trivial = two operations of different clients overlap in time; distinct by hash of inputs',
+        'refuted': ['mem_store_diverge_counterexample (D44)'],
+        'level_text': 'Coq theorems: lin_sound (the linearizability oracle is sound: when the extracted checker accepts a history there is a real-time-respecting sequential order under which the sequential model returns every observed result and ends in the observed final memory and storage), '
+                      'disjoint ids commute in the sequential model, the two-phase model of Add with its divergence witness (D44), and by reflection over gen/LockTable.v (regenerated from the source): every access to the fact maps and indexes happens under the state lock. '
+                      'Tie to the code: concurrent histories of the real location judged by the extracted oracle; race detector on the same harness (a report whose access pair no known finding lists is a violation).',
+        'level_note': 'PARTIAL: Go data races, "concurrent map writes" crashes and deadlocks are runtime facts; the theorems cover the sequential specification, the oracle and the lock-granularity table, the race detector and the child-process watchdog are tests. '
+                      'Found by this check and repaired in /repo (fix: commits): unsynchronised parsed-rule cache (data races, possible crash, stale rule), ExtractRule writing into the shared rule body under a read lock. '
+                      'Open finding D44: overlapping writes to ONE id are applied to memory and to storage in different orders (memory update and storage write are not one critical section): memory and storage diverge.',
+        'technique': 'Coq soundness proof of a linearizability oracle over the sequential model + reflection over a source-derived lock table; stress with linearizability checking and the Go race detector',
+        'assumptions': ['the recorded invocation/response instants bracket the operation', 'search budget of the oracle: 20000 nodes (exhaustion is counted as ambiguous, never as failure)'],
+        'partial': 'runtime concurrency facts are tested, not proved',
+    },
+    'C11': {
+        'props_file': 'props/C11.v',
+        'domains': [{'name': 'conc-loc', 'quick': 400, 'thorough': 20000, 'thorough_shards': 10, 'race': 150, 'race_thorough': 3000}],
+        'spec_ops': ['linearizable', 'no-crash'],
+        'corr': 'corr.conc (CorrConc.check_conc) on histories through ONE sys.System from a cold start, one location per client + race-detector runs',
+        'rule': 'conc-loc: 2-3 client goroutines, each with its own location, 2-4 operations each through the sys.System API of one System, released together from process start (storage, cache entries and locations are created by the concurrent first requests); '
+                'per-location results and final states are judged against the sequential model of each location; race runs under the Go race detector; non-trivial = two operations overlap in time; distinct by hash of inputs',
+        'level_text': 'Coq theorems over the system model: interleave_equiv_sequential (for ANY interleaving of request histories addressed to different, unrelated locations, every location ends in the state - and every request returns the result - of its own sequential history: by the frame theorems of C09), '
+                      'and the cache-layer theorem single_load_with_reuse (C17). Tie to the code: concurrent cold-start histories through one real System judged per location by the extracted sequential model; Go race detector on the same harness.',
+        'level_note': 'PARTIAL: data races, crashes and deadlocks are runtime facts (tested by the race detector and a watchdog, not proved). Found by this check and repaired in /repo (fix: commits): unlocked lazy creation of the System\'s storage (concurrent first requests each made a Storage; all but the last were orphaned), '
+                      'and the cache-entry replacement that let concurrent first requests load a location twice (D41).',
+        'technique': 'Coq proof that interleavings of requests to unrelated locations are equivalent to the per-location sequential runs (frame + induction on the merged history) + concurrent stress with per-location linearizability checking and the Go race detector',
+        'assumptions': ['requests are atomic steps of the system model (the granularity of the frame theorems)'],
+        'partial': 'runtime concurrency facts are tested, not proved',
+    },
+ 'C16': {
+        'props_file': 'props/C16.v',
+        'domains': [
+            {'name': 'cron', 'quick': 120, 'thorough': 2400, 'thorough_shards': 10},
+            {'name': 'crolt', 'quick': 120, 'thorough': 2400, 'thorough_shards': 10},
+        ],
+        'spec_ops': [],
+        'corr': 'corr.cron (CorrCron.check_cron: timed scripts on a started cron.Cron replayed through Cron.step with the ticks and callback returns derived from the model\'s own timer; '
+                'Add/Rem results, every Timeline snapshot and the per-id fire counts compared) and corr.crolt (CorrCrolt.check_crolt: the crolt binary built with -tags verif and driven as a child '
+                'process; after every Add/Delete/DeleteAccount/work/reopen all buckets are scanned and compared key for key, in Bolt order, with Crolt.bstep)',
+        'rule': 'cron: scripts on the grid S+125+50k ms (S = wall-clock fraction 0.100) with one-shot jobs due on S+150+50k ms, far jobs, every-second jobs, replaced and removed ids over 6 ids, '
+                'limit 100 or 1-4; scenarios (i mod 6): plain, removal of the head (D38), suspend/resume/pause with and without an Add meanwhile (D49), Rem/Add while the callback runs (D26) and '
+                'Add at capacity (D50), small limits, recurring; crolt: 3-8 Add (durations, cron expressions, client once/evict, malformed ids and schedules) / Delete / DeleteAccount / reopen over '
+                '5 accounts x 3 ids and 1-4 partitions, work on every partition after sleeps past the due instants and past TTL (300 ms), 12 due entries for the limit of 10, an Add carrying a '
+                'foreign TId (D40); non-trivial = something fired (cron) / fired or was evicted (crolt); distinct by hash of inputs and observations',
+        'refuted': ['removed_inflight_recurring_counterexample, readd_inflight_lost_counterexample (D26)', 'rem_head_stalls_counterexample (D38)',
+                    'add_while_suspended_fires_counterexample (D49)', 'add_at_capacity_drops_job_counterexample (D50)',
+                    'client_tid_breaks_consistency_counterexample (D40)', 'work_fires_subsecond_early_counterexample, work_defers_due_entry_counterexample (D39)'],
+        'level_text': 'Coq theorems over the executable models of cron.Cron (timeline, running callbacks, timer target; Add/Rem/tick/callback return/suspend/resume/pause) and of the crolt buckets '
+                      '(jobs and time maps with Bolt\'s key order, Add/Delete/DeleteAccount/work/reopen), for ALL operation sequences, no size bound: timeline_sorted, unique_ids, no_early_fire, '
+                      'oneshot_fires_at_most_once, recurring_once_per_occurrence, removed_pending_never_fires, suspend_keeps_jobs, suspended_quiet, resume_rearms, timer_armed_without_rem; '
+                      'buckets_consistent (every op, every history, restart), one_time_entry_per_job, delete_removes_both, work_fires_due_only, oneshot_becomes_evict, evict_entry_removed. '
+                      'Tie to the code: timed scripts on the real cron.Cron and op-by-op bucket scans of the real crolt service replayed through the extracted models; the specification judged on the observations.',
+        'level_note': 'Known findings: D26 (recurring job removed/replaced while its callback runs comes back), D38 (Rem of the head leaves the timer un-armed: later jobs stall until the next Add/Resume), '
+                      'D49 (an Add, a callback return or a pause while suspended re-arms the timer: jobs fire while suspended), D50 (Add of a pending id at capacity removes the job and reports an error), '
+                      'D40 (crolt Add accepts a client TId and deletes that time entry), D39 (crolt time keys are RFC3339Nano strings with trimmed zeros: inside one second key order is not time order; '
+                      'whole-second keys wait one more second). Trusted: Bolt transaction atomicity/durability (reopen is the identity in the model; checked on the real file by the harness), '
+                      'time.Timer semantics (a stopped or expired timer delivers nothing more), goroutine start latency below the margins (operations nearer than 10 ms to a simulated event, or later than 15 ms, are counted ambiguous).',
+        'technique': 'Coq proofs by invariant over operation sequences (fold_left) + event-driven differential replay of timed scripts (cron) and bucket-by-bucket differential replay of a child process (crolt)',
+        'assumptions': ['every critical section of cron.Cron runs under its mutex (one model op per section)',
+                        'recurring jobs: the next occurrence supplied by cronexpr is an input of the trace',
+                        'crolt: operations are sequential (one Bolt write transaction at a time); years 0000-9999 in UTC (fixed-width date-time prefix of the keys)'],
+    },
 }
+
+# a property is only offered (bin/check, MANIFEST) once its theorem file exists
+import os as _os
+_COQ = _os.path.join(_os.path.dirname(_os.path.dirname(_os.path.abspath(__file__))), 'coq')
+PROPS = {k: v for k, v in PROPS.items() if _os.path.exists(_os.path.join(_COQ, v['props_file']))}
